@@ -21,9 +21,14 @@ import (
 	"github.com/robustirc/robustirc/internal/robust"
 )
 
-// MaxIndex is the largest index of the domain: keys whose first byte is >= 's'
-// (0x73) sort at/after the "stablestore-" keys and are outside the domain.
-const MaxIndex = uint64(0x72ffffffffffffff)
+// MaxIndex is the largest index (and DeleteRange bound) of the domain:
+// DeleteRange computes max+1, which overflows for 2^64-1.
+const MaxIndex = ^uint64(0) - 1
+
+// StableBoundary ("stablest"): the 8-byte big-endian key of an index up to this
+// value sorts before every "stablestore-" key of the shared LevelDB keyspace,
+// the key of a larger index sorts after all of them.
+const StableBoundary = uint64(0x737461626c657374)
 
 var (
 	payloads     [][]byte // 1-based ids; payloads[0] unused
